@@ -133,7 +133,7 @@ func checkC18(p *Prog, res *Result, tier string) {
 	res.rule("C18-R2", "every call of Backend/BackendShim Watch in the server layer is dominated by IsLeader()==true", 2)
 	res.rule("C18-R3", "every call of Backend/BackendShim Get, List, Count, GetPartitions, ListByStream in the server layer is dominated by SyncReadRevision()==nil", 10)
 	res.rule("C18-R4", "SyncReadRevision returns nil only on the leader branch or after SetCurrentRevision(revision fetched from the leader with a nil error)", 2)
-	res.rule("C18-R6", "no step of the leader fetch fails silently: the error of the request, of reading the answer's body and of decoding it is returned, or some other non-nil error is", 3)
+	res.rule("C18-R6", "no validating step of the leader fetch fails silently: the error of the request and of decoding the answer is returned, or some other non-nil error is (a step whose data is handed to a later checked step, such as reading the body, is validated by that step)", 2)
 	res.rule("C18-R5", "the revision publisher returns the backend's committed revision only under IsLeader()==true and writes a non-2xx status first otherwise; the fetch returns success only for status 200", 3)
 
 	nGuards := 0
@@ -464,6 +464,13 @@ func checkPublisher(p *Prog, r *Roles, lr *leaderRoles, res *Result) {
 					if name == "Close" || strings.HasSuffix(name, ".Close") || strings.HasPrefix(pkg, modPath+"/pkg/metrics") {
 						return "", false
 					}
+					// a step whose data goes into a later fallible step of the fetch (the body bytes into the decoder) is
+					// validated by that step: a truncated document does not decode, so only the last link must be checked
+					if call, ok := c.(*ssa.Call); ok {
+						if exs := extractsOf(call); len(exs) > 0 && exs[0] != nil && feedsFallibleCall(exs[0], call) {
+							return "", false
+						}
+					}
 					return pkg + "." + name, true
 				},
 				"the follower takes the zero revision (or whatever was decoded so far) for the leader's committed revision: SyncReadRevision reports success and the follower serves a snapshot that misses committed writes")
@@ -523,4 +530,39 @@ func checkPublisher(p *Prog, r *Roles, lr *leaderRoles, res *Result) {
 			}
 		}
 	}
+}
+
+// feedsFallibleCall: the value is handed (directly, or through a local variable) to another call of the same function
+// that itself returns an error.
+func feedsFallibleCall(v ssa.Value, self *ssa.Call) bool {
+	seen := map[ssa.Value]bool{}
+	var rec func(v ssa.Value, d int) bool
+	rec = func(v ssa.Value, d int) bool {
+		if seen[v] || d > 4 || v.Referrers() == nil {
+			return false
+		}
+		seen[v] = true
+		for _, ref := range *v.Referrers() {
+			switch x := ref.(type) {
+			case *ssa.Call:
+				if x != self && errorResultIndex(x.Common().Signature()) >= 0 {
+					return true
+				}
+			case *ssa.Store:
+				if al, ok := x.Addr.(*ssa.Alloc); ok && x.Val == v {
+					for _, r2 := range *al.Referrers() {
+						if ld, ok := r2.(*ssa.UnOp); ok && rec(ld, d+1) {
+							return true
+						}
+					}
+				}
+			case *ssa.MakeInterface, *ssa.ChangeType, *ssa.Convert, *ssa.Slice, *ssa.Phi:
+				if rec(x.(ssa.Value), d+1) {
+					return true
+				}
+			}
+		}
+		return false
+	}
+	return rec(v, 0)
 }
